@@ -33,6 +33,7 @@ RULE = ("exhaustive over abort points: for every scenario of a fixed family (opt
         "gradient requests, NaN failures -> TOO_FEW and max_functions stops; evaluator step, also with a failing evaluation; sequences "
         "of two to four steps, also re-running a step object; nested plans of depth 2 (outer <= 2 x inner <= 2 evaluations) and "
         "depth 3, with failures, budget stops and empty trackers (NESTED_OPTIMIZER_FAILED) inside the inner, middle and outer run; "
+        "nested plans that had another parent before (constructed with parent=, or first nested under another outer plan); "
         "BasicOptimizer with its abort and results callbacks, also one object run twice) and handler/observer layouts (0-3 handlers per plan level, 0-2 "
         "observers registered for all or for some event types), EVERY index k of the unaborted delivery log (each delivery to a "
         "handler or observer and each evaluator call) is used as the abort point, plus k = none; thorough adds seeded random "
@@ -60,7 +61,7 @@ BASIC_RERUN = True
 EV = c14.EV
 USER_ABORT = 4
 CALL = -1
-OBS_BASE, ABORT_CB, RESULTS_CB = 40, 50, 51
+OBS_BASE, ABORT_CB, RESULTS_CB, STALE_BASE = 40, 50, 51, 60
 ALL_EVENTS = [1, 2, 3, 4, 5, 6]
 
 
@@ -201,7 +202,18 @@ def _scenario(case, k):
         for v in _events_of(ob):
             ctx.add_observer(by_value[v], lambda ev, j=ob["id"]: w.deliver(j, ev))
     try:
-        plans = [Plan(ctx) for _ in case["plans"]]
+        # reparent: the nested plans have had another parent before they are run under the outer plan of the scenario --
+        # "ctor": they were constructed with parent=<a stale plan with its own recording handlers>; "two-outer": they were
+        # first used as nested optimization of a step of ANOTHER outer plan (that run is not recorded and leaves every
+        # tracker empty).  DefaultOptimizerStep._run_nested_plan sets the parent before every nested run: the events of
+        # the recorded run must reach the handlers of its real ancestors only.
+        reparent = case.get("reparent")
+        stale = None
+        if reparent:
+            stale = Plan(ctx)
+            for i in range(max(1, case["plans"][0])):
+                stale.add_handler("verifrec", tag=STALE_BASE + i, world=w)
+        plans = [Plan(ctx) if (j == 0 or reparent != "ctor") else Plan(ctx, parent=stale) for j, _ in enumerate(case["plans"])]
         nsteps, trackers = {}, {}
         for j, p in enumerate(plans):
             if j > 0:
@@ -214,7 +226,8 @@ def _scenario(case, k):
                     kw2 = {"nested_optimization": plans[j + 1]} if spec["nested"] else {}
                     try:
                         code = plan.run_step(nsteps[j], config=spec["config"], variables=variables, **kw2)
-                        exits.append([100 * j, int(code.value)])
+                        if not w.mute:
+                            exits.append([100 * j, int(code.value)])
                     except PlanAborted:
                         exits.append([100 * j, -2])
                     return plan.get(trackers[j], "results")
@@ -223,6 +236,20 @@ def _scenario(case, k):
             for i in range(case["plans"][j]):
                 p.add_handler("verifrec", tag=10 * j + i, world=w)
         outer = plans[0]
+        if reparent == "two-outer":
+            # unrecorded first use under the other outer plan: the innermost run fails at its first evaluation, so every
+            # level ends with NESTED_OPTIMIZER_FAILED / TOO_FEW_REALIZATIONS and no tracker holds a result afterwards
+            d = len(plans) - 1
+            node = None
+            for lvl in range(d, 0, -1):
+                node = _node([_req("F", 0, 0, BAD if lvl == d else None)], [node] if node is not None else None)
+            pre = _c14case(2, 2, False, None, [_req("F")], [node])
+            w.mute = True
+            Scripted.queue[:] = [c14.spec_of(c14.root(pre), False)]
+            code0 = stale.run_step(stale.add_step("optimizer"), config=c14.make_config(pre), nested_optimization=plans[1])
+            w.mute = False
+            if int(code0.value) != 3 or any(p.aborted for p in plans):
+                raise RuntimeError(f"harness: the unrecorded first run ended with {code0!r}")
         objects = {}
         for spec in case["steps"]:
             sid = spec["sid"]
@@ -570,7 +597,15 @@ def scenario_family(tier):
                                    _opt([F, F], tree=[_node([F], [_node([F])]), _node([F, F], [_node([F, G]), _node([F])])])]),
         ]
         basic += [("basic-long", [_opt([F, G, FG, _req("F", 1, 3), _req("G", 1)])])]
-    return [(n, _number(s), False) for n, s in fam] + [(n, _number(s), True) for n, s in basic]
+    out = [(n, _number(s), False) for n, s in fam] + [(n, _number(s), True) for n, s in basic]
+    # nested plans that had another parent before (see _scenario): (name, steps, basic) with the variant after '+'
+    pick = {"nested-2x2": "two-outer", "nested-no-result": "ctor", "nested3-1x1x2": "two-outer", "nested-then-eval": "ctor",
+            "nested3-inner-no-result": "ctor"}
+    if tier == "thorough":
+        pick = {n: v for n in [x[0] for x in out if x[0].startswith("nested")] for v in ("two-outer",)}
+        out += [(f"{n}+reparent-ctor", s, b) for n, s, b in out if n in pick]
+    out += [(f"{n}+reparent-{pick[n]}", s, b) for n, s, b in out if n in pick and "+" not in n]
+    return out
 
 
 def _obs(*specs):
@@ -646,18 +681,20 @@ def gen_cases(tier, rng):
     for name, steps, basic in scen:
         if basic:
             layouts = BASIC_LAYOUTS
-        elif tier == "thorough" and not name.startswith("random"):
+        elif tier == "thorough" and not name.startswith("random") and "+" not in name:
             layouts = LAYOUTS
         else:
             # quick / random scenarios: two or three layouts per scenario, rotating through all of them
             layouts = [LAYOUTS[nl % len(LAYOUTS)], LAYOUTS[(nl + 3) % len(LAYOUTS)]]
-            if not name.startswith(("nested3", "random")):
+            if not name.startswith(("nested3", "random")) and "+" not in name:
                 layouts.append(LAYOUTS[(nl + 4) % len(LAYOUTS)])
         nl += 1
         d = _depth(steps)
         for plans, observers in layouts:
             levels = 1 if basic else max(d + 1, 2 if nl % 2 else d + 1)     # sometimes a plan level that is never used
             base = {"name": name, "plans": plans[:levels], "observers": observers, "steps": steps, "basic": basic}
+            if "+reparent-" in name:
+                base["reparent"] = name.split("+reparent-")[1]
             D = _scenario({**base, "k": None}, None)["log"]
             n = len(D)
             yield {**base, "k": None}
